@@ -107,10 +107,33 @@ func cacheFlowSpec() engine.FlowSpec {
 					return 0, true
 				}
 			}
+			// a package-local constructor of an entry (newLiveNode(e)): what it returns is what its
+			// body makes of its parameters - clean when every returned value is (a Clone() result),
+			// otherwise as owned as the arguments
+			if h := cc.StaticCallee(); h != nil && !cc.IsInvoke() && h.Pkg != nil && strings.HasSuffix(h.Pkg.Pkg.Path(), pkgSC) && len(h.Blocks) > 0 && h.Signature.Recv() == nil && !cacheSummaryBusy[h] {
+				if sig := h.Signature; sig.Results().Len() == 1 && isNamed(sig.Results().At(0).Type(), pkgSC, "valueNode") {
+					cacheSummaryBusy[h] = true
+					fl := engine.RunFlow(h, cacheFlowSpec())
+					delete(cacheSummaryBusy, h)
+					var out engine.Label
+					for _, ret := range engine.Returns(h) {
+						out |= fl.Of(ret.Results[0])
+					}
+					if out&labCaller != 0 {
+						out &^= labCaller
+						for _, a := range cc.Args {
+							out |= arg(a)
+						}
+					}
+					return out, true
+				}
+			}
 			return 0, false
 		},
 	}
 }
+
+var cacheSummaryBusy = map[*ssa.Function]bool{}
 
 func init() {
 	register(&Check{ID: "C07", Pkgs: []string{pkgSC, pkgUtil}, Run: runC07})
@@ -134,6 +157,7 @@ func runC07(r *engine.Run) {
 	r.Rule("ORDER-commitclear", "in StateCache.commit no versions-map Add is reachable after the store that replaces the block's pending map: the pending writes are dropped only after all of them were published")
 	r.Rule("WHO-globalcache", "package statecache keeps no cache instance (StateCache, BlockCache, TransactionCache, QueryBlockCache) in a package-level variable: caches are per block / per transaction objects")
 	r.Rule("DEP-walk", "see C06: the ancestor walk of StateCache.Get uses only the queried hash and stored links, and memoises exactly the entry it found (all fields, the tombstone flag included) under the queried hash")
+	r.Rule("DOM-ownfirst", "see C06: a layer delegates a lookup to the layer below only where its own map has no entry for the key - an own tombstone is an answer (a transaction that removed a key must not see the block's or a sibling's value for it)")
 	r.Rule("AGREE-origin", "see C14: the origin tracker's Read restores exactly what Write wrote, field by field in the same order and byte order (trie nodes are copied through the cache by encode/decode: a copy that loses the version is not the value that was handed in)")
 	r.NotDec = append(r.NotDec, "after commit the committed values are what descendant lookups return (value-level; see C06)")
 	cloneBoundary(r, "C07")
@@ -154,6 +178,7 @@ func runC07(r *engine.Run) {
 	whoGlobalCache(r, "WHO-globalcache")
 	depWalk(r)
 	agreeOrigin(r)
+	domOwnFirst(r)
 }
 
 // cloneBoundary checks every sink in package statecache.
